@@ -12,7 +12,7 @@ Require Import Fggs.Proofs.BigSum Fggs.Proofs.SP_trees Fggs.Proofs.SP_nonrec Fgg
                Fggs.Proofs.SP_examples
                Fggs.Proofs.Dual_ring Fggs.Proofs.Dual_leibniz Fggs.Proofs.Dual_trees Fggs.Proofs.Dual_J
                Fggs.Proofs.Dual_vjp Fggs.Proofs.Dual_encl Fggs.Proofs.Dual_examples
-               Fggs.Proofs.SP_main Fggs.Proofs.Dual_back Fggs.Proofs.Dual_nonrec Fggs.Proofs.Dual_check.
+               Fggs.Proofs.SP_main Fggs.Proofs.Dual_back Fggs.Proofs.Dual_nonrec Fggs.Proofs.Dual_check Fggs.Proofs.Dual_log.
 
 (** * 0. The oracle of the correspondence check is sound *)
 (** verdict 0 of [grad_check_real]: the grammar is well-formed and every observed gradient entry
@@ -302,3 +302,56 @@ Theorem C03_example_gradient :
               | Some t => t | None => [] end) = [3; 3; 3; 3; 3; 3].
 Proof. exact (conj grad_S_f12 backward_S_f). Qed.
 Print Assumptions C03_example_gradient.
+(** * 8. J_log (Log semiring, read through exp) *)
+(** FULL STATEMENT (tier B, open at the block level): for a division [dv] that is exact on
+    finite non-zero denominators, every cell (xi, yi) of every block (n, l) satisfies
+      J_log_val (J_log_contribs G comp e wi) n l (xi ++ yi) = Some v   with
+      v * F_n(xi) = J_val (J_contribs G comp e wi) n l (xi ++ yi) * x_l(yi)
+    provided every rule of n has a finite non-zero sum-product at xi, i.e.
+    J_log = diag(1/F x) J diag(x).  Proved below: the identity for every single (rule, edge)
+    contribution (the block is their sum), from  full product = leave-one-out product * edge value
+    and  row sum of the full product = the rule's sum-product. *)
+Theorem C03_log_partial :
+  forall R (o : sr_ops R), sr_ring o ->
+  forall G, wf_grammar G = true ->
+  forall (E : env (R:=R)) (dv : R -> R -> option R) (ok : R -> Prop),
+    (forall a b, ok b -> exists c, dv a b = Some c /\ mul o c b = a) ->
+  forall r s xi yi (total : R),
+    wf_rule G r = true -> In s (splits (r_edges r)) ->
+    In xi (all_assts (lshape G (r_lhs r))) -> In yi (all_assts (lshape G (fst (snd (fst s))))) ->
+    ok (rule_val o G E r xi) -> ok total ->
+    exists v,
+      omul o (dv (full_prod o G E r s (xi ++ yi))
+                 (sumS o (all_assts (lshape G (fst (snd (fst s))))) (fun yi' => full_prod o G E r s (xi ++ yi'))))
+             (dv (rule_val o G E r xi) total) = Some v
+      /\ mul o v total = mul o (loo_prod o G E r s (xi ++ yi)) (E (fst (snd (fst s))) yi).
+Proof. exact (fun R o H G Hwf E dv ok Hdv => @J_log_entry R o H G E dv ok Hdv). Qed.
+Print Assumptions C03_log_partial.
+
+Theorem C03_log_rowsum :
+  forall R (o : sr_ops R), sr_ring o ->
+  forall G (E : env (R:=R)) r s xi,
+    wf_rule G r = true -> In s (splits (r_edges r)) -> In xi (all_assts (lshape G (r_lhs r))) ->
+    sumS o (all_assts (lshape G (fst (snd (fst s))))) (fun yi => full_prod o G E r s (xi ++ yi)) = rule_val o G E r xi.
+Proof. exact (fun R o H G E => @full_rowsum R o H G E). Qed.
+Print Assumptions C03_log_rowsum.
+
+(** the code as it stands violates the property when a rule's sum-product is zero (finding
+    c03_log_dead_rule_nan): S -> t(n) | t(n) X, X without rules, t = [1/4, 1/4]: the J_log block
+    (S, t) is nan (0 after nan_to_num) although J * x / F = 1 * (1/4) / (1/2) = 1/2 *)
+Theorem C03_log_dead_rule_refuted :
+  J_log_val ereal_ops (J_log_contribs ereal_ops ediv G_dead [0] E_dead true) 0 2 [1] = None
+  /\ nan_to_zero ereal_ops (J_log_val ereal_ops (J_log_contribs ereal_ops ediv G_dead [0] E_dead true) 0 2 [1]) = Fin nn0
+  /\ eeqb (J_val ereal_ops (J_contribs ereal_ops G_dead [0] E_dead true) 0 2 [1]) (Fin nn1) = true
+  /\ eeqb (emul (J_val ereal_ops (J_contribs ereal_ops G_dead [0] E_dead true) 0 2 [1]) quarter) (emul half half) = true.
+Proof. exact log_dead_rule_refuted. Qed.
+Print Assumptions C03_log_dead_rule_refuted.
+
+(** without the dead rule (the guard of C03_log_partial holds) the block is 1/2 *)
+Theorem C03_log_live_rule_example :
+  match J_log_val ereal_ops (J_log_contribs ereal_ops ediv G_live [0] E_dead true) 0 2 [1] with
+  | Some v => eeqb v half
+  | None => false
+  end = true.
+Proof. exact log_live_rule_value. Qed.
+Print Assumptions C03_log_live_rule_example.
